@@ -17,36 +17,55 @@ theorem decide_bitLen (v : Int) (b : Nat) : decide (bitLen v ≤ b) = decide (v.
   decide_eq_decide.mpr (bitLen_le_iff v b)
 
 open YaegiVerif.Expected.C03 in
-/-- the three table look-ups of the expected facts, per kind -/
+/-- the table look-ups of the expected facts, per kind -/
 theorem facts_of (k : IKind) :
-    reprFacts.preOf k = (if k.signed then .int64Val else .uint64Val) ∧ reprFacts.bitlenOf k = k.bits ∧
-    reprFacts.cmp = .le := by
+    reprFacts.preOf k = (if k.signed then .int64Range else .uint64Val) ∧ reprFacts.bitlenOf k = k.bits ∧
+    reprFacts.cmp = .le ∧ reprFacts.lo = .le ∧ reprFacts.hi = .le := by
   cases k <;> decide
+
+open YaegiVerif.Expected.C03 in
+/-- the same for the code before the repair -/
+theorem factsBefore_of (k : IKind) :
+    reprFactsBefore.preOf k = (if k.signed then .int64Val else .uint64Val) ∧ reprFactsBefore.bitlenOf k = k.bits ∧
+    reprFactsBefore.cmp = .le := by
+  cases k <;> decide
+
+/-- the two bounds of the range test, computed with Go's int64 wrap-around (`1<<63` wraps to the minimum and
+    `- 1` wraps back to the maximum for the 64-bit kinds), are the bounds of the type -/
+theorem range_consts (k : IKind) (hk : k.signed = true) :
+    shl64 (-1) (uintPred k.bits) = -(2 ^ (k.bits - 1) : Int) ∧
+    wrap64 (shl64 1 (uintPred k.bits) - 1) = (2 ^ (k.bits - 1) : Int) - 1 := by
+  cases k <;> first
+    | (exfalso; revert hk; decide)
+    | decide
 
 /-- propositional reading of `reprY` for the expected facts -/
 theorem reprY_iff (k : IKind) (v : Int) :
     reprY Expected.C03.reprFacts k v = true ↔
-      (if k.signed then -(2 ^ 63 : Int) ≤ v ∧ v < 2 ^ 63 else 0 ≤ v ∧ v < 2 ^ 64) ∧ v.natAbs < 2 ^ k.bits := by
-  obtain ⟨h1, h2, h3⟩ := facts_of k
+      (if k.signed then (-(2 ^ 63 : Int) ≤ v ∧ v < 2 ^ 63) ∧ -(2 ^ (k.bits - 1) : Int) ≤ v ∧ v ≤ (2 ^ (k.bits - 1) : Int) - 1
+       else (0 ≤ v ∧ v < 2 ^ 64) ∧ v.natAbs < 2 ^ k.bits) := by
+  obtain ⟨h1, h2, h3, h4, h5⟩ := facts_of k
   unfold reprY
-  rw [h1, h2, h3]
-  cases hs : k.signed <;>
-    simp only [int64Ok, uint64Ok, Bool.and_eq_true, decide_eq_true_eq, bitLen_le_iff, if_true, if_false,
+  rw [h1]
+  cases hs : k.signed
+  · simp only [bitLenTest, h2, h3, uint64Ok, Bool.and_eq_true, decide_eq_true_eq, bitLen_le_iff, if_false,
       Bool.false_eq_true]
+  · obtain ⟨c1, c2⟩ := range_consts k hs
+    simp only [rangeTest, h2, h4, h5, c1, c2, Cmp.test, int64Ok, Bool.and_eq_true, decide_eq_true_eq, if_true]
+
+/-- propositional reading of `reprY` for the code before the repair: the 64-bit guard and `|v| < 2^bits` -/
+theorem reprYBefore_iff (k : IKind) (v : Int) :
+    reprY Expected.C03.reprFactsBefore k v = true ↔
+      (if k.signed then -(2 ^ 63 : Int) ≤ v ∧ v < 2 ^ 63 else 0 ≤ v ∧ v < 2 ^ 64) ∧ v.natAbs < 2 ^ k.bits := by
+  obtain ⟨h1, h2, h3⟩ := factsBefore_of k
+  unfold reprY
+  rw [h1]
+  cases hs : k.signed <;>
+    simp only [bitLenTest, h2, h3, int64Ok, uint64Ok, Bool.and_eq_true, decide_eq_true_eq, bitLen_le_iff, if_true,
+      if_false, Bool.false_eq_true]
 
 theorem reprGo_iff (k : IKind) (v : Int) : Spec.reprGo k v = true ↔ k.minVal ≤ v ∧ v ≤ k.maxVal := by
   simp only [Spec.reprGo, Bool.and_eq_true, decide_eq_true_eq]
-
-theorem reprFixed_iff (k : IKind) (v : Int) :
-    reprFixed Expected.C03.reprFacts k v = true ↔
-      (if k.signed then (-(2 ^ 63 : Int) ≤ v ∧ v < 2 ^ 63) ∧ -(2 ^ (k.bits - 1) : Int) ≤ v ∧ v ≤ (2 ^ (k.bits - 1) : Int) - 1
-       else (0 ≤ v ∧ v < 2 ^ 64) ∧ v.natAbs < 2 ^ k.bits) := by
-  obtain ⟨h1, h2, _⟩ := facts_of k
-  unfold reprFixed
-  rw [h1, h2]
-  cases hs : k.signed <;>
-    simp only [int64Ok, uint64Ok, Bool.and_eq_true, decide_eq_true_eq, bitLen_le_iff, if_true, if_false,
-      Bool.false_eq_true, and_assoc]
 
 theorem inSignedGap_iff (k : IKind) (v : Int) :
     inSignedGap k v = true ↔
